@@ -517,8 +517,82 @@ def oracle_c19(case, reply):
     return []
 
 
+
+def _bind_parse(ws):
+    it = iter(int(x) for x in ws[1:])
+    nx = lambda: next(it)
+    mode, use = nx(), nx() != 0
+    named = []
+    for _ in range(nx()):
+        ms = [(nx(), nx(), nx() != 0) for _ in range(nx())]
+        es = [(nx(), nx() != 0) for _ in range(nx())]
+        named.append((ms, es))
+    ifs = [[(nx(), nx()) for _ in range(nx())] for _ in range(nx())]
+    args = [(nx(), nx(), nx()) for _ in range(nx())]
+    return mode, use, named, ifs, args
+
+
+def _bind_methodset(named, ifs, ty):
+    """Go's method-set rule, restated independently of the Lean model: ty = (pointer depth, kind, id)"""
+    d, k, i = ty
+    if k == 1 and d == 0:
+        return set(ifs[i])
+    if k != 0 or d > 1:
+        return set()
+    own, es = named[i]
+    out = {(n, sg) for n, sg, ptr in own if d == 1 or not ptr}
+    own_names = {n for n, _, _ in own}
+    for e, eptr in es:
+        for n, sg, ptr in named[e][0]:
+            if n in own_names:
+                continue                       # depth 0 shadows depth 1
+            if sum(1 for e2, _ in es if n in {m[0] for m in named[e2][0]}) != 1:
+                continue                       # two embedded fields declare it: ambiguous, not in the method set
+            if d == 1 or eptr or not ptr:
+                out.add((n, sg))
+    return out
+
+
+def oracle_c11_bind(case, reply):
+    """wire.Bind / wire.InterfaceValue accept only what Go's method-set rule allows (the `only if` of C11)"""
+    ws = case["raw"]
+    mode, use, named, ifs, args = _bind_parse(ws)
+    if not reply.startswith("ok"):
+        if reply.startswith(("panic", "unparsed", "blowup", "timeout")):
+            return ["%s on %s" % (reply, " ".join(ws))]
+        return []
+    what = "wire.Bind" if mode == 0 else "wire.InterfaceValue"
+    if len(args) != 2:
+        return ["%s accepted with %d arguments" % (what, len(args))]
+    a0, a1 = args
+    if not (a0[0] == 1 and a0[1] == 1):
+        return ["%s accepted although its first argument is not a pointer to an interface: %s" % (what, a0)]
+    if mode == 0:
+        if use and a1[0] == 0:
+            return ["wire.Bind accepted a second argument that is not a pointer: %s" % (a1,)]
+        prov = (a1[0] - 1, a1[1], a1[2]) if use else a1
+        if prov == (0, 1, a0[2]):
+            return ["wire.Bind accepted binding interface I%d to itself" % a0[2]]
+    else:
+        prov = a1
+        if a1[1] == 3:
+            return ["wire.InterfaceValue accepted the untyped nil"]
+    need = set(ifs[a0[2]])
+    have = _bind_methodset(named, ifs, prov)
+    if not need <= have:
+        return ["%s accepted (%s) although the provided type %s (depth, kind, id) lacks the interface's methods %s (name, signature) "
+                "by Go's method-set rule; declared methods (name, signature, pointer receiver) and embedded fields: %s; interfaces: %s"
+                % (what, reply, prov, sorted(need - have), named, ifs)]
+    return []
+
+
+def oracle_c11_any(case, reply):
+    if case.get("op") == "bind":
+        return oracle_c11_bind(case, reply)
+    return oracle_c11(case, reply)
+
 ORACLES = {"C19": oracle_c19, "C09": oracle_c09, "C12": oracle_c12, "C02": oracle_c02, "C05": oracle_c05, "C06": oracle_c06, "C07": oracle_c07,
-           "C08": oracle_c08, "C10": oracle_c10, "C11": oracle_c11}
+           "C08": oracle_c08, "C10": oracle_c10, "C11": oracle_c11_any}
 
 
 # ---- projections: which part of a reply a property's correspondence compares --------------
@@ -604,12 +678,14 @@ def run_stream(mode, args, timeout=900):
         if meta and meta[-1] == "":
             meta.pop()
         extra = {}
-        if mode == "rename":
+        if mode in ("rename", "bind"):
             # sources the harness could not use (a defect of the generator, never of Wire) are counted, not compared
-            keep = [i for i, r in enumerate(reqs) if not r.startswith("rename-skip")]
-            extra["skipped"] = [impl[i] for i, r in enumerate(reqs) if r.startswith("rename-skip")][:5]
+            skip = mode + "-skip"
+            keep = [i for i, r in enumerate(reqs) if not r.startswith(skip)]
+            extra["skipped"] = [reqs[i] + " " + impl[i] for i, r in enumerate(reqs) if r.startswith(skip)][:5]
             extra["n_skipped"] = len(reqs) - len(keep)
             reqs, impl, meta = [reqs[i] for i in keep], [impl[i] for i in keep], [meta[i] for i in keep if i < len(meta)]
+        if mode == "rename":
             extra["sources"] = {f: open(d + "/src/" + f).read() for f in sorted(os.listdir(d + "/src"))}
         rc2, mout, merr = run([WIREMODEL], inp="\n".join(reqs) + "\n", timeout=timeout)
         model = mout.split("\n")
